@@ -345,6 +345,15 @@ func genDigraph(r *vc.Rng, caseID int) []typeDef {
 		return []typeDef{mk("Ant", "Tick", "Toad", "Dog", "Bee"), mk("Tick", "Ulna"), mk("Ulna", "LeafA"), mk("LeafA"), mk("Toad", "LeafB"), mk("LeafB"),
 			mk("Bee", "Dog"), mk("Dog", "Cat"), mk("Cat", "Bee")}
 	}
+	if caseID == 3 {
+		// two circles; a member of the first one refers to the second one AFTER its relation into its own circle: when
+		// the second circle was added by an earlier call, that relation is dropped from the list and must not take the
+		// one before it along
+		mk := func(name string, refs ...string) typeDef {
+			return typeDef{name: name, scalar: []string{"name: String"}, refs: refs, ordered: true}
+		}
+		return []typeDef{mk("Xa", "Cat", "Pig"), mk("Cat", "Dog"), mk("Dog", "Xa"), mk("Pig", "Rat"), mk("Rat", "Sow"), mk("Sow", "Pig")}
+	}
 	n := 5 + r.Intn(6)
 	names := []string{"Ant", "Bee", "Cat", "Dog", "Eel", "Fox", "Gnu", "Hen", "Ibis", "Jay"}[:n]
 	ts := make([]typeDef, n)
@@ -471,6 +480,48 @@ func schemaCase(ctx context.Context, out *vc.Out, r *vc.Rng, caseID int, tier st
 		return
 	}
 	out.Nontrivial(fmt.Sprintf("schema%d", caseID))
+	// the schema sets visible in the identifiers against the specification (drv ident): the edges are the relations
+	// the schema descriptions hold (the primary side of a two-sided relation, every one-sided relation)
+	{
+		var spec []string
+		names := []string{}
+		for _, t := range ts {
+			var es []string
+			for _, rf := range t.refs {
+				if oneSided || rf == t.name || primary[t.name+">"+rf] {
+					es = append(es, rf)
+				}
+			}
+			spec = append(spec, t.name+"->"+strings.Join(es, "+"))
+			names = append(names, t.name)
+		}
+		sort.Strings(names)
+		base := func(n string) (string, string) {
+			v := strings.SplitN(ref[n], "|", 2)[0]
+			if i := strings.LastIndex(v, "-"); i >= 0 {
+				return v[:i], v[i+1:]
+			}
+			return v, ""
+		}
+		var parts []string
+		for _, n := range names {
+			b, ix := base(n)
+			if ix == "" {
+				parts = append(parts, n+"=-")
+				continue
+			}
+			leader := n
+			for _, m := range names {
+				if mb, mi := base(m); mb == b && mi != "" {
+					leader = m
+					break
+				}
+			}
+			parts = append(parts, fmt.Sprintf("%s=%s#%s", n, leader, ix))
+		}
+		out.Emit("sets "+strings.Join(spec, ","), strings.Join(parts, " "))
+		out.Count("op:sets")
+	}
 	reps := 6
 	if tier == "thorough" {
 		reps = 20
